@@ -70,6 +70,18 @@ BUILT["C06"] = ("E2", "fault_enumeration", "deterministic simulation with denial
 BUILT["C58"] = ("E2", "exploration", "deterministic simulation: every E2 run drives a #[derive(NetworkBehaviour)] composite of three probe fields; cross-field consistency oracles",
   "Identical FromSwarm sequences in all fields, handler events (Echo) return to the emitting field, denied iff some field denied, union of field addresses is what gets dialled (checked with C04)",
   E2_NOTE, "5/C58")
+BUILT["C04"] = ("E2", "exploration", "deterministic simulation: real Swarm::dial against a recording transport; target peers moved through disconnected/dialing/connected states by histories; per-dial oracle evaluated on the reference model",
+  "Generated DialOpts (all PeerConditions, duplicate / own-listen / foreign-/p2p addresses, per-field behaviour address books with and without extend) in every target state; rejected dials: DialPeerConditionFalse, one DialFailure per field, no transport call, no pending connection; accepted dials: exact ordered address list handed to the transport, NoAddresses when empty",
+  E2_NOTE, "5/C04")
+BUILT["C05"] = ("E2", "fault_enumeration", "deterministic simulation with identity faults enumerated: the stub transport authenticates each side of each connection as expected / other / local peer",
+  "All 9 (dialer-side x listener-side) authentication combinations x (expected peer given or not), interleaved with ordinary traffic: established only when the id matches the expectation and is not local, else WrongPeerId / LocalPeerId, and the refused muxer is closed via poll_close",
+  E2_NOTE, "5/C05")
+BUILT["C07"] = ("E2", "exploration", "deterministic simulation: numbered NotifyHandler::One/Any emissions from any composite field against starved connection tasks (back-pressure), racing closes and resets; history check at quiescence",
+  "Targeting (connection and field), at-most-once, per-handler order, Any only to a connection established at emission (snapshot rebuilt from the event history), loss only when the target (some snapshot member for Any) was closed or commanded to close",
+  E2_NOTE, "5/C07")
+BUILT["C08"] = ("E2", "exploration", "deterministic simulation: every transport dial future completes only when the simulator says so, in a drawn order with drawn outcomes; in-flight counter checked after every scheduler step",
+  "N in 1..12 addresses x factor 1..8 (config / override) x smart mode x completion orders: in-flight <= k at every step, one transport dial per address, success iff an attempted address succeeded, exact error accounting in DialError::Transport / concurrent_dial_errors",
+  E2_NOTE + "; no hook needed (the property suggested one): the public Swarm path exercises ConcurrentDial/SmartDial unchanged", "5/C08")
 NOT_YET = {}
 
 def main():
